@@ -46,7 +46,7 @@ var intTypes = []string{"int", "int8", "int16", "int32", "int64", "uint", "uint8
 
 func genSizedInt(t *rapid.T, typ string) TV {
 	tv := TV{T: typ}
-	edge := drawInt(t, 0, 3, "edge") == 0
+	edge := oneIn(t, 4, "edge")
 	switch typ {
 	case "int", "int64":
 		i, _ := GenInt(t)
@@ -148,7 +148,7 @@ func genTV(t *rapid.T, depth int) TV {
 			it.I = int64(i64)
 			it.Items = []TV{{T: "int", I: int64(i)}}
 			it.Keys = []string{"n"}
-			it.Nil = drawInt(t, 0, 5, "nilentry") == 0
+			it.Nil = oneIn(t, 6, "nilentry")
 			tv.Items = append(tv.Items, it)
 			tv.Keys = append(tv.Keys, []string{"a", "b", "", "k.1"}[i%4])
 		}
